@@ -52,6 +52,7 @@ def extra(report, env):
     d0 = datetime.datetime(2019, 11, 20)
     values = [0, 1, -1, 0.3, 0.1 + 0.2, 1 / 3, 2 / 3, 1 - 2 / 3, 1e16, 1e16 + 2, 43789, 43789.0, 43789.00001, 50000, 1e-300, -1e-300,
               d0, d0 + datetime.timedelta(seconds=1), d0 + datetime.timedelta(milliseconds=2), datetime.datetime(1900, 3, 1), datetime.datetime(9999, 12, 31),
+              datetime.datetime(1900, 1, 1), datetime.datetime(1900, 1, 1, 12), datetime.datetime(1899, 12, 31, 12), datetime.datetime(1899, 12, 30), datetime.datetime(1800, 1, 1), 0.25, 0.75,
               '', 'a', 'A', 'b', 'ab', '2019-01-01', '2019-11-20', '50000', '12', 'TRUE', 'z', 'é',
               True, False, None]
     cases = 0
